@@ -140,7 +140,7 @@ def infer(ctx: Ctx, e):
             return "Rat"
         if fn in ("np.sqrt", "math.sqrt", "sqrt"):
             return "Rat"
-        if fn == "math.ceil":
+        if fn in ("math.ceil", "np.ceil"):
             return "Int"
         if fn == "np.arange":
             return "List Rat"
@@ -404,7 +404,7 @@ def call(ctx, e, want):
         return f"(Val.isNan {expr(ctx, args[0], 'Val')})"
     if fn in ("np.sqrt", "math.sqrt", "sqrt"):
         return f"(sqrt {expr(ctx, args[0], 'Rat')})"
-    if fn == "math.ceil" and len(args) == 1:
+    if fn in ("math.ceil", "np.ceil") and len(args) == 1:
         inner = f"(Rat.ceil {expr(ctx, args[0], 'Rat')})"
         return inner if want in (None, "Int") else cast(ctx, inner, "Int", want)
     if fn == "np.arange" and len(args) == 3:
